@@ -1090,14 +1090,48 @@ func (*reader).Delete
     assert[crash_nodup] distinct4(rs.Log, rs.Index, nseg.Log, nseg.Index) && nseg.Log != r.segment.Log ==> !(fsExists[nseg.Log] && fsExists[r.segment.Log]) at call (Segment).Remove 3
     requires[locks] rdLocksFree()
 func (*reader).ConsumeByKey
-    flags locks lockonly noframe
+    flags locks
     requires[locks] rdLocksFree() && ixLocksFree()
     // the mmap reader is used only while pinned, and the pin is dropped on every path
     assert[locks_pinned] r.messagesInuse >= old(r.messagesInuse) + 1 at call message.(*Reader).Get 1
     ensures[locks_unpinned] r.messagesInuse == old(r.messagesInuse)
-    requires rdWf(r)
+    requires rdWf(r) && r.params.Keys
+    requires[count] 1 <= maxCount && maxCount <= 1048576
+    requires[hash] decodeHash(bseq(keyHash)) == keyHash(bseq(key))
+    assigns r.index, r.indexLastAccess, r.messages, r.messagesInuse
+    ensures[wf]       rdWf(r)
+    ensures[newest]   offset == OffsetNewest && err == nil ==> ret0 == r.gnext && len(ret1) == 0
+    // C09: every returned message is a record of this segment carrying exactly the key, at or after the offset ...
+    ensures[sound]    err == nil ==> forall j :: 0 <= j && j < len(ret1) ==> bseq(ret1[j].Key) == bseq(key) && ret1[j].Offset >= offset
+                          && (exists k :: 0 <= k && k < len(r.gitems) && ret1[j].Offset == recOffset(r.gfile, k) && recHasKey(r.gfile, k, key))
+    // ... in offset order ...
+    ensures[order]    err == nil ==> forall a, b :: 0 <= a && a < b && b < len(ret1) ==> ret1[a].Offset < ret1[b].Offset
+    // ... and none is skipped: a record with the key at or after the offset is returned, unless the count is used up before it
+    ensures[complete] err == nil && offset != OffsetNewest ==> forall k :: 0 <= k && k < len(r.gitems) && recHasKey(r.gfile, k, key) && recOffset(r.gfile, k) >= offset ==>
+                          (exists j :: 0 <= j && j < len(ret1) && ret1[j].Offset == recOffset(r.gfile, k))
+                          || (len(ret1) == maxCount && recOffset(r.gfile, k) > ret1[len(ret1)-1].Offset)
+    // the cursor: one past the last returned message, or the end of the segment when there is nothing (more)
+    ensures[next]     err == nil && len(ret1) > 0 ==> ret0 == ret1[len(ret1)-1].Offset + 1
+    ensures[none]     err == nil && len(ret1) == 0 ==> ret0 == r.gnext
+    ensures[count]    err == nil ==> len(ret1) <= maxCount
+    // proof hint at the final return: the last collected message lies above all earlier ones
+    assert[h_last]    forall j :: 0 <= j && j < len(msgs) - 1 ==> msgs[j].Offset < msgs[len(msgs)-1].Offset at return 11
+    assert[h_prefix]  forall a, b :: 0 <= a && a < b && b < len(msgs) - 1 ==> msgs[a].Offset < msgs[b].Offset at return 11
     loop 1
-      invariant[locks] rdLocksFree() && ixLocksFree()
+      invariant[locks]  rdLocksFree() && ixLocksFree()
+      invariant[range]  -1 <= rangeindex && rangeindex < len(positions) && len(msgs) < maxCount && offset != OffsetNewest
+      invariant[state]  messages != nil && messages.gfile == r.gfile && rdWf(r) && r.messagesInuse == old(r.messagesInuse) + 1
+      invariant[cands]  forall j :: 0 <= j && j < len(positions) ==> atRec(r.gfile, positions[j])
+      invariant[asc]    forall a, b :: 0 <= a && a < b && b < len(positions) ==> positions[a] < positions[b]
+      invariant[all]    forall k :: 0 <= k && k < len(r.gitems) && recHasKey(r.gfile, k, key) ==>
+                            (exists j :: 0 <= j && j < len(positions) && positions[j] == recPos(r.gfile, k))
+      invariant[sound]  forall j :: 0 <= j && j < len(msgs) ==> bseq(msgs[j].Key) == bseq(key) && msgs[j].Offset >= offset
+                            && (exists p :: 0 <= p && p <= rangeindex && msgs[j].Offset == recOffset(r.gfile, recIdx(r.gfile, positions[p])) && recHasKey(r.gfile, recIdx(r.gfile, positions[p]), key))
+      invariant[order]  forall a, b :: 0 <= a && a < b && b < len(msgs) ==> msgs[a].Offset < msgs[b].Offset
+      invariant[fresh]  (msgs == nil || fresh(region(msgs))) && entryElems(msgs)
+      invariant[below]  forall j, p :: 0 <= j && j < len(msgs) && rangeindex < p && p < len(positions) ==> msgs[j].Offset < recOffset(r.gfile, recIdx(r.gfile, positions[p]))
+      invariant[done]   forall p :: 0 <= p && p <= rangeindex && recHasKey(r.gfile, recIdx(r.gfile, positions[p]), key) && recOffset(r.gfile, recIdx(r.gfile, positions[p])) >= offset ==>
+                            (exists j :: 0 <= j && j < len(msgs) && msgs[j].Offset == recOffset(r.gfile, recIdx(r.gfile, positions[p])))
 func (*writer).Publish
     flags locks only_locks only_sync only_struct noframe
     requires[sync_ok] wOK(w)
